@@ -24,11 +24,21 @@ PROPS = {
                 "non-trivial = distinct history with at least two successful observer reads and one node function invocation",
                 c01_safe=True),
     "C02": spec(["IncrVerif.Props.C02"], [("bind", 0.5), ("general", 0.3), ("static", 0.2)], ["api", "ev", "read"],
-                GEN + "non-trivial = distinct history in which node functions ran"),
+                GEN + "both build profiles (in debug builds a glitch usually trips a debug assertion first; release builds show the "
+                "stale arguments); non-trivial = distinct history in which node functions ran",
+                builds=("debug", "release"), nq=200),
+    "C06": spec(["IncrVerif.Props.C06"], [("static", 0.3), ("general", 0.4), ("bind", 0.3)], ["api", "ev", "read"],
+                GEN + "all cutoff kinds on all node kinds incl. vars, equal-value writes, unobserve/re-observe; "
+                "non-trivial = distinct history in which node functions ran"),
+    "C14": spec(["IncrVerif.Props.C14"], [("expert", 1.0)], ["api", "ev", "read", "snap"],
+                GEN + "profile expert: expert nodes (sum of dependencies / sum of what the edge callbacks stored) with scripted drivers: "
+                "join/bind pattern (select one of several targets by the driver's input, always or only when new), add + remove by position, "
+                "duplicate dependencies on one child, make_stale, dependencies added from outside while observed, observer churn; "
+                "non-trivial = distinct history in which an expert node was recomputed"),
     "C04": spec(["IncrVerif.Props.C04"], [("general", 0.3), ("bind", 0.3), ("expert", 0.2), ("subs", 0.1), ("varw", 0.1)],
                 ["api"], GEN + "both build profiles (debug assertions on and off); non-trivial = distinct history in which node functions ran",
                 builds=("debug", "release"), nq=200),
-    "C05": spec(["IncrVerif.Props.C05"], [("general", 0.4), ("bind", 0.4), ("life", 0.2)], ["api", "ev", "stats"],
+    "C05": spec(["IncrVerif.Props.C05"], [("general", 0.3), ("bind", 0.3), ("expert", 0.25), ("life", 0.15)], ["api", "ev", "stats"],
                 GEN + "non-trivial = distinct history in which node functions ran"),
     "C07": spec(["IncrVerif.Props.C07"], [("varw", 0.4), ("general", 0.4), ("life", 0.2)], ["api", "read", "ev"],
                 GEN + "reads of every observer after every action, and from inside node functions and handlers (readobs effects); "
